@@ -501,6 +501,36 @@ def _epub(C, repo):
     m = loader.module(rel, repo)
     _returns_numbered(C, m, rel, "_extract_chapter", "C03/epub_extractor.py::_extract_chapter/construction#returned-chapter-carries-the-number-passed-in",
                       "EpubChapter", "chapter_number", "chapter_number", first_of_tuple=True, allow_none=True)
+    # parser state must not outlive a content document: whatever is fed the markup of a chapter is constructed in the very function
+    # call that handles this chapter (an instance shared between chapters carries open-element state from one unit into the next)
+    oid_p = "C03/epub_extractor.py::chapter-text/construction#markup-parser-constructed-per-content-document"
+    feeds = []
+    for q, f_ in m.functions.items():
+        if ".<locals>." in q:
+            continue
+        for n in ast.walk(f_):
+            if isinstance(n, ast.Call) and isinstance(n.func, ast.Attribute) and n.func.attr == "feed" and q.split(".")[-1] not in ("feed",) \
+                    and not q.startswith("_XhtmlTextExtractor"):
+                feeds.append((q, f_, n))
+    if not feeds:
+        C.add(oid_p, None, "no markup parser is fed in this module")
+    else:
+        why = []
+        for q, f_, n in feeds:
+            recv = n.func.value
+            ok = False
+            if isinstance(recv, ast.Name) and recv.id not in [a.arg for a in f_.args.posonlyargs + f_.args.args + f_.args.kwonlyargs]:
+                defs = [d for d in assigns_to(f_, recv.id) if isinstance(d, (ast.Assign, ast.AnnAssign))]
+                ok = len(defs) == 1 and isinstance(defs[0].value, ast.Call) and isinstance(defs[0].value.func, ast.Name) \
+                    and defs[0].value.func.id in m.classes and not defs[0].value.args and not defs[0].value.keywords
+                # ... and the construction is not hoisted out of a loop that feeds it repeatedly
+                if ok:
+                    for lp in [x for x in ast.walk(f_) if isinstance(x, (ast.For, ast.While))]:
+                        if any(y is n for y in ast.walk(lp)) and not any(y is defs[0] for y in ast.walk(lp)):
+                            ok = False
+            if not ok:
+                why.append(f"{q}: `{ast.unparse(recv)}.feed(...)` at line {n.lineno} uses a parser that is not constructed right there")
+        C.add(oid_p, True if not why else False, "; ".join(why) or f"{len(feeds)} feed site(s), each on a parser constructed in the same call", rel)
     fn = m.functions.get("read_epub")
     oid = "C03/epub_extractor.py::read_epub/construction#chapter-number-is-the-1-based-spine-position"
     if fn is None:
@@ -915,10 +945,22 @@ def _docx_iterator(C, m):
     paths = iteration_paths(flush.body, [is_inc, is_unit_ret])
     paired = all(v in ((0, 0), (1, 1)) for (v, s) in paths) and all(s == "return" for (_v, s) in paths)
     unit_rets = [n for n in ast.walk(flush) if is_unit_ret(n)]
-    shape = len(unit_rets) == 1 and ast.unparse(unit_rets[0].value).replace(" ", "").replace("\n", "").startswith("iter([DocxUnit(") \
-        and len(unit_rets[0].value.args[0].elts) == 1 and incs[0].lineno < unit_rets[0].lineno
+    def one_unit_seq(v):        # [Unit] / (Unit,) / iter([Unit]) / iter((Unit,)) / list(...)/tuple(...) of those
+        while isinstance(v, ast.Call) and dotted(v.func) in ("iter", "list", "tuple") and len(v.args) == 1:
+            v = v.args[0]
+        return isinstance(v, (ast.List, ast.Tuple)) and len(v.elts) == 1 and v.elts[0] is ctor
+
+    def empty_seq(v):
+        if v is None:
+            return False
+        while isinstance(v, ast.Call) and dotted(v.func) in ("iter", "list", "tuple") and len(v.args) <= 1:
+            if not v.args:
+                return True
+            v = v.args[0]
+        return isinstance(v, (ast.List, ast.Tuple)) and not v.elts
+    shape = len(unit_rets) == 1 and one_unit_seq(unit_rets[0].value) and incs[0].lineno < unit_rets[0].lineno
     empties = [n for n in ast.walk(flush) if isinstance(n, ast.Return) and n not in unit_rets]
-    shape = shape and all(ast.unparse(r.value).replace(" ", "") == "iter(())" for r in empties)
+    shape = shape and all(empty_seq(r.value) for r in empties)
     G.add("each-flush-yields-nothing-or-one-unit-numbered-by-the-incremented-counter", (paired and shape) if shape else None,
           f"flush paths={sorted(paths)}", f"{DT}:{flush.lineno}")
     # every use of flush is `yield from flush(...)`; other yields: a single final unit numbered 1 reachable only when no heading was seen
@@ -931,15 +973,20 @@ def _docx_iterator(C, m):
         k = kw(ys[0].value, "unit_number")
         last = fn.body[-1]
         prev = fn.body[-2] if len(fn.body) > 1 else None
+        # `if flag: return` followed by the yield, or the yield as the only statement of a final `if not flag:`
         guard = isinstance(prev, ast.If) and isinstance(prev.test, ast.Name) and len(prev.body) == 1 and isinstance(prev.body[0], ast.Return) \
-            and not prev.orelse
-        if isinstance(last, ast.Expr) and last.value is ys[0] and guard and isinstance(k, ast.Constant):
-            flag = prev.test.id
+            and not prev.orelse and isinstance(last, ast.Expr) and last.value is ys[0]
+        flag = prev.test.id if guard else None
+        if not guard and isinstance(last, ast.If) and not last.orelse and isinstance(last.test, ast.UnaryOp) and isinstance(last.test.op, ast.Not) \
+                and isinstance(last.test.operand, ast.Name) and len(last.body) == 1 and isinstance(last.body[0], ast.Expr) and last.body[0].value is ys[0]:
+            guard, flag = True, last.test.operand.id
+        if guard and isinstance(k, ast.Constant):
             # flush returns nothing unless <path var> is non-empty; <path var> is only assigned (beyond []) next to `flag = True`
-            first = flush.body[0] if not isinstance(flush.body[0], ast.Nonlocal) else flush.body[1]
+            real = [b for b in flush.body if not isinstance(b, ast.Nonlocal) and not (isinstance(b, ast.Expr) and isinstance(b.value, ast.Constant))]
+            first = real[0] if real else None
             pv = first.test.operand.id if (isinstance(first, ast.If) and isinstance(first.test, ast.UnaryOp) and isinstance(first.test.op, ast.Not)
                                            and isinstance(first.test.operand, ast.Name) and len(first.body) == 1
-                                           and isinstance(first.body[0], ast.Return) and ast.unparse(first.body[0].value).replace(" ", "") == "iter(())") else None
+                                           and isinstance(first.body[0], ast.Return) and empty_seq(first.body[0].value)) else None
             if pv is not None:
                 ok = True
                 for d in assigns_to(fn, pv):
